@@ -932,13 +932,25 @@ func revU8Case(run *vgen.Run, r *vgen.Rand) {
 // ---------------------------------------------------------------- operation sequences
 
 type seqOp struct {
-	Kind    int // 0 inc, 1 rev, 2 setptr, 3 conv, 4 setinfo, 5 sethop
+	Kind    int // 0 inc, 1 rev, 2 setptr, 3 conv, 4 setinfo, 5 sethop, 6 serialize, 7 decode another path
 	ViaBase bool
 	CI, CH  uint8
 	Idx     int
 	Info    infoV
 	HopID   uint64
 	Hop     path.HopField
+	Buf     *pathBuf
+}
+
+// pathBuf is a serialized path together with what the model is told about its contents.
+type pathBuf struct {
+	W           uint32
+	Buf         []byte
+	Is          []infoV
+	Hs          []uint64
+	S           shape
+	NInf, NHops int
+	PtrMode     string
 }
 
 func (o seqOp) term() string {
@@ -953,18 +965,24 @@ func (o seqOp) term() string {
 		return "Meta.OConv"
 	case 4:
 		return vgen.App("Meta.OSetInfo", vgen.N(uint64(o.Idx)), infoTerm(o.Info))
+	case 5:
+		return vgen.App("Meta.OSetHop", vgen.N(uint64(o.Idx)), vgen.N(o.HopID))
+	case 6:
+		return "Meta.OSer"
 	}
-	return vgen.App("Meta.OSetHop", vgen.N(uint64(o.Idx)), vgen.N(o.HopID))
+	return vgen.App("Meta.ODecode", vgen.N(uint64(o.Buf.W)), vgen.N(uint64(len(o.Buf.Buf))),
+		vgen.ListOf(o.Buf.Is, infoTerm), hopsTerm(o.Buf.Hs))
 }
 
 func (o seqOp) name() string {
-	return [...]string{"inc", "rev", "setptr", "conv", "setinfo", "sethop"}[o.Kind]
+	return [...]string{"inc", "rev", "setptr", "conv", "setinfo", "sethop", "serialize", "decode"}[o.Kind]
 }
 
 type stepObs struct {
 	Code uint64
 	P    *pathV
 	Conv *pathV
+	Viol string // a violation seen directly (panic, write beyond Len())
 }
 
 func (s stepObs) term() string {
@@ -988,11 +1006,29 @@ func errCode(err error) uint64 {
 	return 0
 }
 
+// serializeCheck calls SerializeTo on a buffer with 16 guard bytes behind Len() and decodes the result
+// with a fresh Decoded.
+func serializeCheck(p path.Path, hi hopIndex) (code uint64, conv *pathV, viol string) {
+	n := p.Len()
+	out := bytes.Repeat([]byte{0xAA}, n+16)
+	if err := p.SerializeTo(out); err != nil {
+		return 1, nil, ""
+	}
+	if !bytes.Equal(out[n:], bytes.Repeat([]byte{0xAA}, 16)) {
+		viol = "SerializeTo wrote beyond Len()"
+	}
+	if d := decodeD(out[:n]); d != nil {
+		conv = viewDecoded(d, hi)
+	}
+	return 0, conv, viol
+}
+
 // applyRaw performs one operation on the Raw object through the public API.
 func applyRaw(rw *scion.Raw, o seqOp, hi hopIndex) stepObs {
 	var code uint64
 	var conv *pathV
-	panicked, _ := vgen.Recover(func() {
+	var viol string
+	panicked, msg := vgen.Recover(func() {
 		switch o.Kind {
 		case 0:
 			if o.ViaBase {
@@ -1016,19 +1052,24 @@ func applyRaw(rw *scion.Raw, o seqOp, hi hopIndex) stepObs {
 				SegID: o.Info.SegID, Timestamp: o.Info.TS}, o.Idx))
 		case 5:
 			code = errCode(rw.SetHopField(o.Hop, o.Idx))
+		case 6:
+			code, conv, viol = serializeCheck(rw, hi)
+		case 7:
+			code = errCode(rw.DecodeFromBytes(append([]byte(nil), o.Buf.Buf...)))
 		}
 	})
 	if panicked {
-		code = 3
+		code, viol = 3, "panic in Raw "+o.name()+": "+msg
 	}
-	return stepObs{Code: code, P: viewRaw(rw, hi), Conv: conv}
+	return stepObs{Code: code, P: viewRaw(rw, hi), Conv: conv, Viol: viol}
 }
 
 // applyDec performs the same operation on the Decoded object.
 func applyDec(d *scion.Decoded, o seqOp, hi hopIndex) stepObs {
 	var code uint64
 	var conv *pathV
-	panicked, _ := vgen.Recover(func() {
+	var viol string
+	panicked, msg := vgen.Recover(func() {
 		switch o.Kind {
 		case 0:
 			code = incCode(d.IncPath(), d.NumINF)
@@ -1056,45 +1097,41 @@ func applyDec(d *scion.Decoded, o seqOp, hi hopIndex) stepObs {
 			} else {
 				code = 1
 			}
+		case 6:
+			code, conv, viol = serializeCheck(d, hi)
+		case 7:
+			code = errCode(d.DecodeFromBytes(append([]byte(nil), o.Buf.Buf...)))
 		}
 	})
 	if panicked {
-		code = 3
+		code, viol = 3, "panic in Decoded "+o.name()+": "+msg
 	}
-	return stepObs{Code: code, P: viewDecoded(d, hi), Conv: conv}
+	return stepObs{Code: code, P: viewDecoded(d, hi), Conv: conv, Viol: viol}
 }
 
-func seqCase(run *vgen.Run, r *vgen.Rand, i int) {
-	s := genSmallShape(r)
-	if r.Chance(1, 8) {
-		s = genShape(r)
-	}
-	if i == 1 {
-		s = shape{0, 0, 0}
-	}
-	ninf := 0
+// genPathBuf builds a well-formed serialized path; its hop fields get the ids hopBase, hopBase+1, ...
+func genPathBuf(r *vgen.Rand, hi hopIndex, hopBase int, s shape) *pathBuf {
+	pb := &pathBuf{S: s, PtrMode: "valid"}
 	for _, x := range []uint32{s.s0, s.s1, s.s2} {
 		if x > 0 {
-			ninf++
+			pb.NInf++
 		}
 	}
-	nhops := int(s.s0 + s.s1 + s.s2)
+	pb.NHops = int(s.s0 + s.s1 + s.s2)
 	ci, ch := validPtr(r, s)
-	ptrMode := "valid"
 	switch r.Intn(10) {
 	case 0, 1: // hop pointer beyond the last hop (decoding does not check)
-		if nhops < 63 {
-			ch, ptrMode = uint32(r.Range(nhops, 63)), "beyond-last-hop"
+		if pb.NHops < 63 {
+			ch, pb.PtrMode = uint32(r.Range(pb.NHops, 63)), "beyond-last-hop"
 		}
 	case 2:
-		ci, ch, ptrMode = uint32(r.Intn(4)), uint32(r.Intn(64)), "arbitrary"
+		ci, ch, pb.PtrMode = uint32(r.Intn(4)), uint32(r.Intn(64)), "arbitrary"
 	}
-	w := word(ci, ch, uint32(r.Intn(64))*uint32(r.Intn(2)), s.s0, s.s1, s.s2)
-	buf := make([]byte, 4+8*ninf+12*nhops)
-	copy(buf, wbytes(w))
+	pb.W = word(ci, ch, uint32(r.Intn(64))*uint32(r.Intn(2)), s.s0, s.s1, s.s2)
+	buf := make([]byte, 4+8*pb.NInf+12*pb.NHops)
+	copy(buf, wbytes(pb.W))
 	copy(buf[4:], r.Bytes(len(buf)-4))
-	var is []infoV
-	for k := 0; k < ninf; k++ {
+	for k := 0; k < pb.NInf; k++ {
 		o := 4 + 8*k
 		if !r.Chance(1, 5) {
 			buf[o] &= 0x3
@@ -1104,19 +1141,35 @@ func seqCase(run *vgen.Run, r *vgen.Rand, i int) {
 		binary.BigEndian.PutUint32(buf[o+4:], uint32(r.Intn(100000)))
 		var f path.InfoField
 		_ = f.DecodeFromBytes(buf[o:])
-		is = append(is, infoV{f.Peer, f.ConsDir, f.SegID, f.Timestamp})
+		pb.Is = append(pb.Is, infoV{f.Peer, f.ConsDir, f.SegID, f.Timestamp})
 	}
-	hi := hopIndex{}
-	var hs []uint64
-	for k := 0; k < nhops; k++ {
-		o := 4 + 8*ninf + 12*k
-		binary.BigEndian.PutUint16(buf[o+2:], uint16(k+1))
+	for k := 0; k < pb.NHops; k++ {
+		o := 4 + 8*pb.NInf + 12*k
+		binary.BigEndian.PutUint16(buf[o+2:], uint16(hopBase+k+1))
 		var h path.HopField
 		_ = h.DecodeFromBytes(buf[o:])
-		hi[hopKey(&h)] = uint64(k)
-		hs = append(hs, uint64(k))
+		hi[hopKey(&h)] = uint64(hopBase + k)
+		pb.Hs = append(pb.Hs, uint64(hopBase+k))
 	}
-	// the operations
+	pb.Buf = buf
+	return pb
+}
+
+func seqShape(r *vgen.Rand) shape {
+	if r.Chance(1, 8) {
+		return genShape(r)
+	}
+	return genSmallShape(r)
+}
+
+func seqCase(run *vgen.Run, r *vgen.Rand, i int) {
+	hi := hopIndex{}
+	s0 := seqShape(r)
+	if i == 1 {
+		s0 = shape{0, 0, 0}
+	}
+	first := genPathBuf(r, hi, 0, s0)
+	cur := first
 	var ops []seqOp
 	newHop := func() seqOp {
 		id := uint64(1000 + len(ops))
@@ -1124,11 +1177,53 @@ func seqCase(run *vgen.Run, r *vgen.Rand, i int) {
 			ConsIngress: uint16(id), ConsEgress: uint16(r.U64())}
 		copy(h.Mac[:], r.Bytes(6))
 		hi[hopKey(&h)] = id
-		return seqOp{Kind: 5, Idx: r.Intn(nhops + 2), HopID: id, Hop: h}
+		return seqOp{Kind: 5, Idx: r.Intn(cur.NHops + 2), HopID: id, Hop: h}
+	}
+	ndec := 0
+	redecode := func() {
+		// another path into the same objects: larger, smaller, other segment count
+		ndec++
+		var s shape
+		switch r.Intn(4) {
+		case 0: // fewer segments / hops than before
+			s = shape{uint32(r.Range(1, 3)), 0, 0}
+		case 1:
+			s = shape{uint32(r.Range(2, 6)), uint32(r.Range(2, 6)), uint32(r.Range(1, 6))}
+		default:
+			s = seqShape(r)
+		}
+		cur = genPathBuf(r, hi, 100*ndec, s)
+		ops = append(ops, seqOp{Kind: 7, Buf: cur})
+	}
+	randomOps := func(n int) {
+		for ; n > 0; n-- {
+			switch k := r.Intn(22); {
+			case k < 7:
+				ops = append(ops, seqOp{Kind: 0, ViaBase: r.Chance(1, 3)})
+			case k < 12:
+				ops = append(ops, seqOp{Kind: 1})
+			case k < 14:
+				o := seqOp{Kind: 2, CI: uint8(r.Intn(4)), CH: uint8(r.Intn(64))}
+				if r.Chance(2, 3) && cur.NHops > 0 {
+					vi, vh := validPtr(r, cur.S)
+					o.CI, o.CH = uint8(vi), uint8(vh)
+				}
+				ops = append(ops, o)
+			case k < 16:
+				ops = append(ops, seqOp{Kind: 3})
+			case k < 18:
+				ops = append(ops, seqOp{Kind: 4, Idx: r.Intn(cur.NInf + 2),
+					Info: infoV{r.Bool(), r.Bool(), uint16(r.Intn(1000)), uint32(r.Intn(100000))}})
+			case k < 20:
+				ops = append(ops, newHop())
+			default:
+				ops = append(ops, seqOp{Kind: 6})
+			}
+		}
 	}
 	if r.Chance(1, 3) {
 		// walk to the end (the last IncPath fails), then reverse twice and convert
-		steps := nhops - int(ch)
+		steps := cur.NHops - int((cur.W>>24)&0x3f)
 		if steps < 1 || steps > 8 {
 			steps = r.Range(1, 4)
 		}
@@ -1137,52 +1232,53 @@ func seqCase(run *vgen.Run, r *vgen.Rand, i int) {
 		}
 		ops = append(ops, seqOp{Kind: 1}, seqOp{Kind: 1}, seqOp{Kind: 3})
 	}
-	for n := r.Range(4, 8); n > 0; n-- {
-		switch k := r.Intn(20); {
-		case k < 7:
-			ops = append(ops, seqOp{Kind: 0, ViaBase: r.Chance(1, 3)})
-		case k < 12:
-			ops = append(ops, seqOp{Kind: 1})
-		case k < 14:
-			o := seqOp{Kind: 2, CI: uint8(r.Intn(4)), CH: uint8(r.Intn(64))}
-			if r.Chance(2, 3) && nhops > 0 {
-				vi, vh := validPtr(r, s)
-				o.CI, o.CH = uint8(vi), uint8(vh)
-			}
-			ops = append(ops, o)
-		case k < 16:
-			ops = append(ops, seqOp{Kind: 3})
-		case k < 18:
-			ops = append(ops, seqOp{Kind: 4, Idx: r.Intn(ninf + 2),
-				Info: infoV{r.Bool(), r.Bool(), uint16(r.Intn(1000)), uint32(r.Intn(100000))}})
-		default:
-			ops = append(ops, newHop())
+	randomOps(r.Range(3, 6))
+	if r.Chance(3, 5) {
+		for k := r.Range(1, 2); k > 0; k-- {
+			redecode()
+			// what is usually done with a freshly decoded path
+			ops = append(ops, seqOp{Kind: vgen.Pick(r, 3, 6, 1, 3)})
+			randomOps(r.Range(1, 4))
 		}
 	}
 	if !run.Want() {
 		run.Skip()
 		return
 	}
-	rw, d := decodeR(buf), decodeD(buf)
+	rw, d := decodeR(first.Buf), decodeD(first.Buf)
 	if rw == nil || d == nil {
-		id := run.Add("seq", vgen.App("Meta.CSeq", vgen.N(uint64(w)), vgen.N(uint64(len(buf))), "[]", "[]",
-			"(Meta.mk_path 0 0 0 0 0 0 0 [] [])", "(Meta.mk_path 0 0 0 0 0 0 0 [] [])", "[]", "[]"), fmt.Sprint(w), false, nil)
-		run.Violate(id, "a well-formed path buffer is rejected by DecodeFromBytes", map[string]any{"word": w})
+		id := run.Add("seq", vgen.App("Meta.CSeq", vgen.N(uint64(first.W)), vgen.N(uint64(len(first.Buf))), "[]", "[]",
+			"(Meta.mk_path 0 0 0 0 0 0 0 [] [])", "(Meta.mk_path 0 0 0 0 0 0 0 [] [])", "[]", "[]"),
+			fmt.Sprint(first.W), false, nil)
+		run.Violate(id, "a well-formed path buffer is rejected by DecodeFromBytes", map[string]any{"word": first.W})
 		return
 	}
 	raw0, dec0 := viewRaw(rw, hi), viewDecoded(d, hi)
 	var obs []string
 	var trace []any
+	var viols []string
 	for _, o := range ops {
 		a, b := applyRaw(rw, o, hi), applyDec(d, o, hi)
 		obs = append(obs, vgen.Pair(a.term(), b.term()))
-		trace = append(trace, map[string]any{"op": o.name(), "raw": []uint64{a.Code, a.P.CI, a.P.CH},
-			"decoded": []uint64{b.Code, b.P.CI, b.P.CH}})
+		trace = append(trace, map[string]any{"op": o.name(), "raw": []uint64{a.Code, a.P.CI, a.P.CH, a.P.NumINF, a.P.NumHops},
+			"decoded": []uint64{b.Code, b.P.CI, b.P.CH, b.P.NumINF, b.P.NumHops, uint64(len(b.P.Infos)), uint64(len(b.P.Hops))}})
 		run.Tally("seq-op:" + o.name())
+		for _, v := range []string{a.Viol, b.Viol} {
+			if v != "" {
+				viols = append(viols, v)
+			}
+		}
 	}
-	run.Tally("seq-ptr:" + ptrMode)
-	term := vgen.App("Meta.CSeq", vgen.N(uint64(w)), vgen.N(uint64(len(buf))), vgen.ListOf(is, infoTerm), hopsTerm(hs),
+	run.Tally("seq-ptr:" + first.PtrMode)
+	run.Tally(fmt.Sprintf("seq-redecodes:%d", ndec))
+	term := vgen.App("Meta.CSeq", vgen.N(uint64(first.W)), vgen.N(uint64(len(first.Buf))),
+		vgen.ListOf(first.Is, infoTerm), hopsTerm(first.Hs),
 		raw0.term(), dec0.term(), vgen.ListOf(ops, func(o seqOp) string { return o.term() }), vgen.List(obs))
-	run.Add("seq", term, fmt.Sprintf("%d/%x/%v", w, buf[4:min(len(buf), 40)], trace), nhops >= 2,
-		map[string]any{"word": w, "ptr": []uint32{ci, ch}, "ptr_mode": ptrMode, "seglen": []uint32{s.s0, s.s1, s.s2}, "steps": trace})
+	desc := map[string]any{"word": first.W, "ptr_mode": first.PtrMode,
+		"seglen": []uint32{first.S.s0, first.S.s1, first.S.s2}, "steps": trace}
+	id := run.Add("seq", term, fmt.Sprintf("%d/%x/%v", first.W, first.Buf[4:min(len(first.Buf), 40)], trace),
+		first.NHops >= 2, desc)
+	if len(viols) > 0 {
+		run.Violate(id, viols[0], desc)
+	}
 }
